@@ -21,9 +21,9 @@ Definition rbind (r : result) (k : value -> result) : result :=
 (** FromValue for the parameter types (macros.rs impl_conversions). *)
 Definition has_vty (t : vty) (v : value) : bool :=
   match t, v with
-  | TValue, _ => true
-  | TInt, VInt _ | TUInt, VUInt _ | TDbl, VDbl _ | TStr, VStr _ | TBytes, VBytes _
-  | TBool, VBool _ | TList, VList _ | TDur, VDur _ | TTs, VTs _ _ => true
+  | TyValue, _ => true
+  | TyInt, VInt _ | TyUInt, VUInt _ | TyDbl, VDbl _ | TyStr, VStr _ | TyBytes, VBytes _
+  | TyBool, VBool _ | TyList, VList _ | TyDur, VDur _ | TyTs, VTs _ _ => true
   | _, _ => false
   end.
 Definition from_value (t : vty) (opt : bool) (v : value) : outcome value :=
